@@ -1044,8 +1044,9 @@ class parser(object):
         if hms == 0:
             # Hour
             res.hour = int(value)
-            if value % 1:
-                res.minute = int(60*(value % 1))
+            hour_remainder = value - res.hour
+            if hour_remainder:
+                res.minute = int(60*hour_remainder)
 
         elif hms == 1:
             (res.minute, res.second) = self._parse_min_sec(value)
@@ -1103,7 +1104,7 @@ class parser(object):
         minute = int(value)
         second = None
 
-        sec_remainder = value % 1
+        sec_remainder = value - minute
         if sec_remainder:
             second = int(60 * sec_remainder)
         return (minute, second)
